@@ -45,7 +45,7 @@ Skipped(fld) == fld.attr = "skip"
 Repr(fld) == IF fld.attr \in {"compact", "encoded_as"} THEN TCompact(IntWidth(fld.ty)) ELSE FieldTy(fld.ty)
 Encoded(fs) == LET keep == SelectSeq(fs, LAMBDA x : ~Skipped(x)) IN [i \in 1..Len(keep) |-> Repr(keep[i])]
 
-AttrOK(fld) == /\ fld.attr \in {"none", "skip", "compact", "encoded_as"}        \* at most one of them
+AttrOK(fld) == /\ fld.attr \in {"none", "skip", "compact", "encoded_as"}        \* at most one of them (anything else is a conflict)
                /\ fld.attr \in {"compact", "encoded_as"} => IsIntTy(fld.ty)
 FieldsOK(fs) == \A i \in 1..Len(fs) : AttrOK(fs[i])
 
@@ -78,7 +78,7 @@ Valid(def) ==
          /\ \A k \in NonSkipped(def) : VariantIndex(def, k) <= 255
          /\ \A a, b \in NonSkipped(def) : a # b => VariantIndex(def, a) # VariantIndex(def, b)
     [] def.kind = "bigenum" ->          \* n unit variants with implicit positions; optionally an index attribute on the first
-         /\ def.n <= 256
+         /\ (IF "skip_first" \in DOMAIN def THEN def.n - 1 ELSE def.n) <= 256      \* encodable variants
          /\ "first_attr" \in DOMAIN def => def.first_attr <= 255 /\ def.first_attr \notin 1..(def.n - 1)
     [] def.kind = "union" -> FALSE
     [] def.kind = "compactas" -> def.shape = "struct" /\ def.nonskipped = 1
